@@ -9,8 +9,8 @@ TRUSTED_BASE = [
     "oracle/sha.ml (SHA-512/256, self-tested against crypto/sha512 vectors on every run)",
     "Go harness (generators, canonicalisation, watchdogs, harness-side judgements) built from /repo's working tree with -tags verif",
     "translators tools/lockscan (lock table of mappollard.go) and tools/effscan (slice-effect IR incl. its table of library-function effects) for the generated obligations of C12/C17",
-    "hand-written Gallina mirrors tied by the correspondence run: Model/Utils, UtilsFast, Verify, Evict, Codec, MapRead, ProofOps, ProofUpdate, MapMut; "
-    "not modelled: Pollard's pointer manipulation, genTTLs, Go runtime/scheduler/RWMutex/memory model, io contracts (observable behaviour judged only)",
+    "hand-written Gallina mirrors tied by the correspondence run: Model/Utils, UtilsFast, Verify, Evict, Codec, MapRead, ProofOps, ProofUpdate, MapMut, TTL; "
+    "not modelled: Pollard's pointer manipulation, Go runtime/scheduler/RWMutex/memory model, io contracts (observable behaviour judged only)",
     "axioms: none (Print Assumptions under every property theorem must be closed; no standard-library axiom is used)",
 ]
 ALLOWED_AXIOMS = set()   # none expected; standard-library axioms would have to be named here
